@@ -46,16 +46,20 @@ func execC36(c run.Case) (res run.Result) {
 		ID:              "C36",
 		OwnsConsistency: true,
 		Panic: func(s *orcStep, res *run.Result, sig, msg string) {
+			if s.Trigger != "" {
+				// tie the crash to its trigger: the same function may crash for other reasons
+				sig = "C36." + s.Trigger + ":" + sig
+			}
 			orcViol(res, "C36.crash", sig, msg)
 		},
 		After: func(s *orcStep, res *run.Result) {
 			k := s.Call.Kind
-			res.Inc("judged_" + k)
+			orcJudged(s, res, k)
 			if k == "updateimport" {
 				c36Import(s, res)
 			} else {
 				if s.PostCompileErr != nil {
-					orcViol(res, "C36.does-not-compile", "C36.does-not-compile:"+k+":"+orcTrig(s),
+					orcViol(res, "C36.does-not-compile", orcSig(s, "C36", "does-not-compile", k),
 						fmt.Sprintf("the text of the returned graph does not compile: %v\n%s", s.PostCompileErr, s.describe()))
 					return
 				}
@@ -64,7 +68,7 @@ func execC36(c run.Case) (res run.Result) {
 					if s.SameGraph {
 						how = "input-graph-returned"
 					}
-					orcViol(res, "C36.pi-differs", "C36.pi-differs:"+k+":"+how+":"+orcTrig(s),
+					orcViol(res, "C36.pi-differs", orcSig(s, "C36", "pi-differs", k+":"+how),
 						fmt.Sprintf("the returned graph differs from the compilation of its own text (- returned, + recompiled):\n%s\n%s", s.PiDiff, s.describe()))
 				}
 			}
@@ -79,7 +83,7 @@ func c36Stable(s *orcStep, res *run.Result) {
 	m, ok := parseOK(text)
 	if !ok {
 		if s.PostCompileErr == nil {
-			orcViol(res, "C36.does-not-parse", "C36.does-not-parse:"+s.Call.Kind, "text does not parse\n"+s.describe())
+			orcViol(res, "C36.does-not-parse", orcSig(s, "C36", "does-not-parse", s.Call.Kind), "text does not parse\n"+s.describe())
 		}
 		return
 	}
